@@ -36,7 +36,9 @@ def ninja_deps():
 def main():
     sd = os.path.abspath(sys.argv[1]); jobs = 6
     if "-j" in sys.argv: jobs = int(sys.argv[sys.argv.index("-j") + 1])
-    res = dict(seed=os.path.basename(sd), head=sh("git -C %s rev-parse --short HEAD" % REPO)[1].strip())
+    # the commit /repo/_build was built from (pinned in a file while /repo moves ahead of its build directory)
+    pinned = open("/var/tmp/confirm_head.txt").read().strip() if os.path.exists("/var/tmp/confirm_head.txt") else None
+    res = dict(seed=os.path.basename(sd), head=pinned or sh("git -C %s rev-parse --short HEAD" % REPO)[1].strip())
     if not os.path.isdir(WT):
         rc, o = sh("git -C %s worktree add --detach %s HEAD" % (REPO, WT))
         if rc: print(o); return 2
